@@ -31,7 +31,8 @@ def page(fileid: str, children: List[n.Node], options: Optional[dict] = None) ->
 def run(pages: List[Page], cfg: Optional[ProjectConfig] = None):
     cfg = cfg or config()
     pp = Postprocessor(cfg, TargetDatabase())
-    return pp.run({p.fileid: p for p in pages}, threading.Event())
+    # keyed the way PageDatabase keys them (a page generated from YAML is stored under its output path)
+    return pp.run({p.fake_full_fileid(): p for p in pages}, threading.Event())
 
 
 def walk(node):
